@@ -90,3 +90,76 @@ package common
 //@ func ComputeForkDigest(currentVersion, genesisValidatorsRoot) digest
 //@   property C14
 //@   ensures forall k :: 0 <= k < 4 ==> digest[k] == fork_data_root(currentVersion, genesisValidatorsRoot)[k]
+
+// ---------------------------------------------------------------- validator_pubkeys.go (C16, C17)
+
+//@ guarded PubkeyCache rwLock: pub2idx idx2pub
+//@ sort PcPtr = *PubkeyCache
+//@ sort Pub2Idx = map[BLSPubkey]ValidatorIndex
+//@ sort Idx2Pub = []CachedPubkey
+//@ sort PubkeyT = BLSPubkey
+
+// pc_local: pub2idx is exactly the inverse of the local segment idx2pub, which
+// starts at index trustedParentCount.
+//@ define pc_local(m Pub2Idx, s Idx2Pub, trusted int) bool = !isnil(m) && trusted + len(s) < 4611686018427387904 && (forall p PubkeyT :: {m[p]} {has(m, p)} has(m, p) ==> trusted <= m[p] && m[p] < trusted + len(s) && s[m[p] - trusted].Compressed == p) && (forall k :: {m[s[k].Compressed]} {has(m, s[k].Compressed)} 0 <= k && k < len(s) ==> has(m, s[k].Compressed) && m[s[k].Compressed] == trusted + k)
+
+// pcs_ok: every allocated cache is locally consistent, its parent was allocated
+// before it (so the parent chain is acyclic and finite) and it trusts no more of
+// the parent than the parent knows.
+//@ define pc_chain(parent int, self int, trusted int, ptrusted int, plen int) bool = parent < self && 0 <= parent && (parent != 0 ==> trusted <= ptrusted + plen)
+
+// pctrig: instantiation trigger for the global cache invariant (always true); it keeps the
+// quantifier from being instantiated along the whole parent chain.
+//@ ufun pctrig(PcPtr) bool
+//@ axiom pctrig_true: forall r PcPtr :: {pctrig(r)} pctrig(r)
+
+//@ func EmptyPubkeyCache() pc
+//@   property C16
+//@   ensures pc != nil && pc.parent == nil && pc.trustedParentCount == 0 && len(pc.idx2pub) == 0 && pc_local(pc.pub2idx, pc.idx2pub, pc.trustedParentCount)
+
+// (The returned *CachedPubkey may be an interior pointer into idx2pub or come
+// from the parent: the engine cannot merge those shapes, so the pointer itself
+// is not described; see DESIGN.md.)
+// Lookups answer within the view of this handle: [0, trustedParentCount) from
+// the parent chain, [trustedParentCount, trustedParentCount+len(idx2pub)) locally.
+//@ func (pc *PubkeyCache) unsafePubkey(index) (pub, ok)
+//@   property C16 C17
+//@   requires pc != nil && held(pc.rwLock) >= 1
+//@   requires forall r PcPtr :: {pctrig(r)} pctrig(r) && alloc(r) ==> pc_local(r.pub2idx, r.idx2pub, r.trustedParentCount) && pc_chain(r.parent, r, r.trustedParentCount, r.parent.trustedParentCount, len(r.parent.idx2pub)) && (r < pc ==> held(r.rwLock) == 0)
+//@   requires alloc(pc) && pctrig(pc) && pctrig(pc.parent)
+//@   decreases pc, 0
+//@   ensures lock: held(pc.rwLock) == old(held(pc.rwLock))
+//@   ensures inview: ok ==> index < pc.trustedParentCount + len(pc.idx2pub)
+//@   ensures local: index >= pc.trustedParentCount ==> (ok <==> index < pc.trustedParentCount + len(pc.idx2pub))
+
+//@ func (pc *PubkeyCache) Pubkey(index) (pub, ok)
+//@   property C16 C17
+//@   requires pc != nil && held(pc.rwLock) == 0
+//@   requires forall r PcPtr :: {pctrig(r)} pctrig(r) && alloc(r) ==> pc_local(r.pub2idx, r.idx2pub, r.trustedParentCount) && pc_chain(r.parent, r, r.trustedParentCount, r.parent.trustedParentCount, len(r.parent.idx2pub)) && (r <= pc ==> held(r.rwLock) == 0)
+//@   requires alloc(pc) && pctrig(pc) && pctrig(pc.parent)
+//@   decreases pc, 1
+//@   ensures lock: held(pc.rwLock) == 0
+//@   ensures inview: ok ==> index < pc.trustedParentCount + len(pc.idx2pub)
+//@   ensures local: index >= pc.trustedParentCount ==> (ok <==> index < pc.trustedParentCount + len(pc.idx2pub))
+
+//@ func (pc *PubkeyCache) unsafeValidatorIndex(pubkey) (index, ok)
+//@   property C16 C17
+//@   requires pc != nil && held(pc.rwLock) >= 1
+//@   requires forall r PcPtr :: {pctrig(r)} pctrig(r) && alloc(r) ==> pc_local(r.pub2idx, r.idx2pub, r.trustedParentCount) && pc_chain(r.parent, r, r.trustedParentCount, r.parent.trustedParentCount, len(r.parent.idx2pub)) && (r < pc ==> held(r.rwLock) == 0)
+//@   requires alloc(pc) && pctrig(pc) && pctrig(pc.parent)
+//@   decreases pc, 0
+//@   ensures lock: held(pc.rwLock) == old(held(pc.rwLock))
+//@   ensures inview: ok ==> index < pc.trustedParentCount + len(pc.idx2pub)
+//@   ensures local: has(pc.pub2idx, pubkey) ==> ok && index == pc.pub2idx[pubkey]
+//@   ensures inherited: ok && !has(pc.pub2idx, pubkey) ==> index < pc.trustedParentCount
+
+//@ func (pc *PubkeyCache) ValidatorIndex(pubkey) (index, ok)
+//@   property C16 C17
+//@   requires pc != nil && held(pc.rwLock) == 0
+//@   requires forall r PcPtr :: {pctrig(r)} pctrig(r) && alloc(r) ==> pc_local(r.pub2idx, r.idx2pub, r.trustedParentCount) && pc_chain(r.parent, r, r.trustedParentCount, r.parent.trustedParentCount, len(r.parent.idx2pub)) && (r <= pc ==> held(r.rwLock) == 0)
+//@   requires alloc(pc) && pctrig(pc) && pctrig(pc.parent)
+//@   decreases pc, 1
+//@   ensures lock: held(pc.rwLock) == 0
+//@   ensures inview: ok ==> index < pc.trustedParentCount + len(pc.idx2pub)
+//@   ensures local: has(pc.pub2idx, pubkey) ==> ok && index == pc.pub2idx[pubkey]
+//@   ensures inherited: ok && !has(pc.pub2idx, pubkey) ==> index < pc.trustedParentCount
